@@ -3,3 +3,4 @@ import AJ.Props.C05
 import AJ.Props.C05Doc
 import AJ.Props.C05Copy
 import AJ.Props.C05Deser
+import AJ.Props.C05MpDeser
